@@ -106,7 +106,7 @@ func readParagraphs(p *Prog, text string) ([]*refPara, string) {
 	m := readerMachine(p, lines)
 	st := initState(m, "control")
 	rid := st.alloc(types.Typ[types.Int], OpaqueV{"bufio"})
-	prID := st.alloc(prT, mkStruct(prT, map[string]Val{"reader": Ptr{Obj: rid}}))
+	prID := st.alloc(prT, mkStruct(prT, map[string]Val{roleField(prT, "*bufio.Reader", "reader"): Ptr{Obj: rid}}))
 	var out []*refPara
 	for i := 0; i < 50; i++ {
 		st.Status = stRun
@@ -341,7 +341,7 @@ func checkC08(p *Prog, rp *Report) {
 				}
 				st := initState(m, "control")
 				wid := st.alloc(types.Typ[types.Int], OpaqueV{"writer"})
-				eid := st.alloc(encT, mkStruct(encT, map[string]Val{"writer": IfaceV{T: types.NewPointer(types.Typ[types.Int]), V: Ptr{Obj: wid}}}))
+				eid := st.alloc(encT, mkStruct(encT, map[string]Val{roleField(encT, "io.Writer", "writer"): IfaceV{T: types.NewPointer(types.Typ[types.Int]), V: Ptr{Obj: wid}}}))
 				undec := ""
 				for i := 0; i < 3; i++ {
 					st.Status = stRun
